@@ -51,3 +51,8 @@ def classify(case, v):
     if f.get("prune_while_dfs", 0) >= 1: labs.append("prune_while_other_dfs_open")
     if f.get("upd_busy", 0) >= 1: labs.append("busy_phase_update")
     return labs
+
+
+def extra_phase(tier, seed):
+    from props.common import scheduler_model_phase
+    return scheduler_model_phase(ID, tier, seed)
